@@ -169,7 +169,7 @@ def c01(tier, rep):
     judge_family(rep, fr)
     from . import fam_operands as fo
 
-    op = fo.operand_programs(tier) + fo.initial_programs() + fo.twin_programs() + fo.question_mark_programs()
+    op = fo.operand_programs(tier) + fo.initial_programs() + fo.twin_programs() + fo.question_mark_programs() + fo.handler_lookalike_programs()
     fro = e2.run_family("c01operands", op, extra_header=fo.PRE)
     judge_family(rep, fro)
     rep.set("operand_corpus_programs", len(op))
@@ -1173,6 +1173,13 @@ def c10(tier, rep):
     hp = handler_expr_programs() + let_lazy_bool_programs()
     fr4 = e2.run_family("c10hexpr", hp, extra_header=fp.HEADER)
     judge_family(rep, fr4)
+    # callbacks inside wrappers of the async macros are invoked exactly as often as the wrapped value's own method invokes them
+    # (`??` on a wrapped None / Err: never; on a wrapped stream: once per item) — the async wrapper family (shared with C02)
+    from . import fam_wrappers
+
+    awp = fam_wrappers.async_wrapper_programs(tier)
+    fr5 = e2.run_family("c10asyncwrap", awp, extra_header=fam_wrappers.ASYNC_PRE)
+    judge_family(rep, fr5)
     rep.set("rule", "E1: EVERY chain over the 70 operator instances up to length %d (plain, block and closure operands; + a second branch with let, deferred steps, a capture and a handler) in 8 configs, each user operand a unique marker: every marker occurs exactly once in the expansion's token stream; E2: depth profiles over a move-only, non-Clone, drop-logging token in all 12 macros with every failure subset (event multiset per branch, created = dropped, dropped-id multiset equal the reference: nothing cloned, leaked or dropped twice) and all typed chains of length <= 2 (callbacks invoked exactly as often, with the same arguments, as the documented method invokes them), plus the capture-dense chain family of C11 (every block operand evaluated and every captured callable used exactly once); named / unnamed branches whose initial value has top-level `||` / `&&` with a visible evaluation in every operand (each reached operand exactly once, on all 8 input rows)" % L)
     sample_family(rep, tp, fr)
 
